@@ -220,6 +220,10 @@ def main():
         for gc in (g.with_inverted_generators if gd.kind == "perm" or gd.inverse_candidates() is not None else g, g.modified_copy(g.definition)):
             if gc.hasher.make_hashes(t).tolist() != real:
                 ck.violation("C03/copy-hash-differs", "a derived graph copy hashes equal states differently", {"case": {"gd": gd.to_json(), "seed": seed}})
+            # the hash the copy HOLDS for its central state is the hash of that state (under the copy's and the origin's hasher)
+            cs = gc.central_state.reshape(1, -1)
+            if gc.central_state_hash.tolist() != gc.hasher.make_hashes(gc.encode_states(cs)).tolist() or gc.central_state_hash.tolist() != g.hasher.make_hashes(g.encode_states(cs)).tolist():
+                ck.violation("C03/copy-central-hash-stale", "a derived graph copy holds a hash for its central state that differs from the hash of that state", {"case": {"gd": gd.to_json(), "seed": seed}})
 
     # ---------- 2. get_unique_states against the model (stable sort + first-occurrence mask)
     for _ in range(60 if not ck.thorough else 1500):
